@@ -15,8 +15,9 @@ import (
 
 func c17TypeD(k Kind) TypeD {
 	// "ks" and "oneself" are declared BEFORE the fields whose names are their prefixes
+	// the struct realisation declares its ID first, after the attributes or last, depending on the kind
 	return TypeD{Name: "t", Attrs: []AttrD{{"ks", Kind{j.AttrTypeString, false}}, {"k", k}, {"s", Kind{j.AttrTypeString, false}}},
-		Rels: []RelD{{"oneself", true, "u", ""}, {"one", true, "u", ""}, {"many", false, "u", ""}}}
+		Rels: []RelD{{"oneself", true, "u", ""}, {"one", true, "u", ""}, {"many", false, "u", ""}}, IDPos: (k.Type + map[bool]int{false: 0, true: 1}[k.Nullable]) % 3}
 }
 
 type c17Op struct {
@@ -44,6 +45,10 @@ func c17Ops(k Kind) []c17Op {
 		} else {
 			ops = append(ops, c17Op{"k", func() any { return c17Base(k)[i] }, ShowVal(base[i])})
 		}
+	}
+	if k.Type == j.AttrTypeBytes && !k.Nullable {
+		// a nil byte string is a well-typed value of the kind: it reads back as an empty one
+		ops = append(ops, c17Op{"k", func() any { return []byte(nil) }, "nil byte string"})
 	}
 	if k.Nullable {
 		ops = append(ops,
